@@ -58,10 +58,99 @@ const (
 )
 
 type claimSpec struct {
-	kind    string // "p" | "o" | "s:<ids>"
+	kind    string // "p" (send-to-fx) | "c" (bridge call) | "o" | "s:<ids>"
 	members []int
 	token   string
+	// deferred claims: where their effects land (measured after every op: ex=)
+	recv     sdk.AccAddress // send-to-fx receiver (fresh per claim)
+	contract common.Address // bridge-call target (fresh per claim; code is installed by the exec op)
+	refund   string         // bridge-call refund address (external format)
 }
+
+// callNode is one `executeClaim(chain, n)` call of an exec op: the call the harness sends (root) or a call the called-back
+// contract of the parent makes (kids, in order).  o: 'o' handler ok, 'r' contract call reverts -> refund, 'f' handler error.
+type callNode struct {
+	n    uint64
+	o    byte
+	kids []*callNode
+}
+
+func (c *callNode) forest() string {
+	var sb strings.Builder
+	sb.WriteByte('[')
+	for i, k := range c.kids {
+		if i > 0 {
+			sb.WriteByte(',')
+		}
+		fmt.Fprintf(&sb, "%d:%c%s", k.n, k.o, k.forest())
+	}
+	sb.WriteByte(']')
+	return sb.String()
+}
+
+func (c *callNode) size() int {
+	n := 1
+	for _, k := range c.kids {
+		n += k.size()
+	}
+	return n
+}
+
+func (c *callNode) depth() int {
+	d := 0
+	for _, k := range c.kids {
+		if x := k.depth(); x > d {
+			d = x
+		}
+	}
+	return d + 1
+}
+
+// parseForest parses `[n:o[...],...]`
+func parseForest(s string) ([]*callNode, string, bool) {
+	if len(s) == 0 || s[0] != '[' {
+		return nil, s, false
+	}
+	s = s[1:]
+	var out []*callNode
+	if len(s) > 0 && s[0] == ']' {
+		return out, s[1:], true
+	}
+	for {
+		i := 0
+		for i < len(s) && s[i] >= '0' && s[i] <= '9' {
+			i++
+		}
+		if i == 0 || i+1 >= len(s) || s[i] != ':' {
+			return nil, s, false
+		}
+		n, _ := strconv.ParseUint(s[:i], 10, 64)
+		node := &callNode{n: n, o: s[i+1]}
+		kids, rest, ok := parseForest(s[i+2:])
+		if !ok {
+			return nil, s, false
+		}
+		node.kids = kids
+		out = append(out, node)
+		s = rest
+		if len(s) == 0 {
+			return nil, s, false
+		}
+		if s[0] == ',' {
+			s = s[1:]
+			continue
+		}
+		if s[0] == ']' {
+			return out, s[1:], true
+		}
+		return nil, s, false
+	}
+}
+
+const (
+	callAmount = 1000 // bridged amount of every bridge-call claim (module token)
+	callGas    = 400_000 // gas a re-entrant contract gives to each executeClaim call
+)
 
 type world struct {
 	t   *testing.T
@@ -88,6 +177,13 @@ type world struct {
 	sender  string
 	recv    sdk.AccAddress
 	caller  common.Address
+	// a module-owned bridge token of this chain (bridged amounts of bridge-call claims): external contract, ERC-20
+	modToken string
+	modErc20 common.Address
+	exCache  string
+	exDirty  bool
+	touched  map[common.Address]bool // bridge-call targets whose claim was ever parked
+	touchedCode map[common.Address]bool // bridge-call targets that carry code
 
 	pr        sdkmath.Int
 	threshold sdkmath.Int
@@ -119,7 +215,7 @@ func newWorld(t *testing.T, s *hx.Suite, out *hx.Out, rng *rand.Rand, chain stri
 		gov:      authtypes.NewModuleAddress(govtypes.ModuleName).String(),
 		oracleID: map[string]int{}, bridgerID: map[string]int{}, extID: map[string]int{}, hashID: map[string]int{},
 		specs: map[[2]uint64]claimSpec{}, observedAt: map[uint64]string{}, executed: map[uint64]bool{},
-		rebonded: map[int]bool{}, reported: map[string]bool{}, unbonded: map[int]bool{}, pr: sdk.DefaultPowerReduction, multiple: mult}
+		rebonded: map[int]bool{}, reported: map[string]bool{}, unbonded: map[int]bool{}, touched: map[common.Address]bool{}, touchedCode: map[common.Address]bool{}, pr: sdk.DefaultPowerReduction, multiple: mult}
 	w.threshold = w.pr.MulRaw(thrUnits)
 	rich := sdk.NewCoin(fxtypes.DefaultDenom, w.pr.MulRaw(100_000_000))
 	for i := 0; i < nO; i++ {
@@ -167,6 +263,21 @@ func newWorld(t *testing.T, s *hx.Suite, out *hx.Out, rng *rand.Rand, chain stri
 	_ = w.k.AddBridgeTokenExecuted(s.Ctx, &crosschaintypes.MsgBridgeTokenClaim{TokenContract: w.fxToken, Name: "Function X",
 		Symbol: fxtypes.DefaultDenom, Decimals: 18, ChainName: chain})
 	s.MintTokenToModule(chain, sdk.NewCoin(fxtypes.DefaultDenom, w.pr.MulRaw(1000)))
+	// a module-owned token bridged from this chain, for bridge-call claims; the callback sender pays `value` = 1 per callback
+	w.modToken = helpers.GenExternalAddr(chain)
+	sym := "TK" + strings.ToUpper(chain)
+	md := fxtypes.GetCrossChainMetadataManyToOne("Token "+sym, sym, 18, crosschaintypes.NewBridgeDenom(chain, w.modToken))
+	pair, perr := s.App.Erc20Keeper.RegisterNativeCoin(s.Ctx, md)
+	if perr != nil {
+		t.Fatalf("RegisterNativeCoin: %v", perr)
+	}
+	w.modErc20 = pair.GetERC20Contract()
+	if err := w.k.AddBridgeTokenExecuted(s.Ctx, &crosschaintypes.MsgBridgeTokenClaim{TokenContract: w.modToken, Name: "Token " + sym,
+		Symbol: sym, Decimals: 18, ChainName: chain}); err != nil {
+		t.Fatalf("AddBridgeTokenExecuted: %v", err)
+	}
+	s.MintToken(w.k.GetCallbackFrom().Bytes(), sdk.NewCoin(fxtypes.DefaultDenom, sdkmath.NewInt(1_000_000)))
+	w.exDirty = true
 	w.prevLo = w.k.GetLastObservedEventNonce(s.Ctx)
 	frac := p.SlashFraction.BigInt() // Dec mantissa
 	out.Reset(w.threshold.String(), strconv.FormatInt(mult, 10), frac.String(), chain, strconv.FormatUint(window, 10), strconv.Itoa(nO))
@@ -331,9 +442,81 @@ func (w *world) observe() string {
 	for _, p := range hx.RawPrefix(ctx, w.key, crosschaintypes.PendingExecuteClaimKey) {
 		pend = append(pend, strconv.FormatUint(sdk.BigEndianToUint64(p[0][1:]), 10))
 	}
-	return fmt.Sprintf("lo=%d tp=%s ln=%s or=%s bb=%s be=%s prop=%s atts=%s pend=%s",
+	return fmt.Sprintf("lo=%d tp=%s ln=%s or=%s bb=%s be=%s prop=%s atts=%s pend=%s ex=%s",
 		w.k.GetLastObservedEventNonce(ctx), w.k.GetLastTotalPower(ctx).String(), joinOr(ln, ","), joinOr(ors, ","), joinOr(bb, ","),
-		joinOr(be, ","), joinOr(prop, ","), joinOr(at, ";"), joinOr(pend, ","))
+		joinOr(be, ","), joinOr(prop, ","), joinOr(at, ";"), joinOr(pend, ","), w.effectsLine())
+}
+
+// effects measures, on the real state, how many times the deferred effects of every event nonce are in force:
+//   - send-to-fx claim (n,h): FX balance of its (fresh) receiver / bridged amount;
+//   - bridge-call claim (n,h): ERC-20 balance of its (fresh) target / bridged amount  (credits that were kept)
+//     + outgoing bridge-call records created for event nonce n                       (credits that were refunded).
+func (w *world) effects() map[uint64]int64 {
+	ctx := w.s.Ctx
+	res := map[uint64]int64{}
+	for k, sp := range w.specs {
+		switch sp.kind {
+		case "p":
+			b := w.s.App.BankKeeper.GetBalance(ctx, sp.recv, fxtypes.DefaultDenom).Amount
+			if b.IsPositive() {
+				res[k[0]] += b.QuoRaw(int64(1 + k[1])).Int64()
+			}
+		case "c":
+			if !w.touched[sp.contract] {
+				continue
+			}
+			b, err := w.s.App.EvmKeeper.ERC20BalanceOf(ctx, w.modErc20, sp.contract)
+			if err != nil {
+				w.t.Fatalf("ERC20BalanceOf: %v", err)
+			}
+			if b.Sign() > 0 {
+				res[k[0]] += new(big.Int).Quo(b, big.NewInt(callAmount)).Int64()
+			}
+		}
+	}
+	w.k.IterateOutgoingBridgeCalls(ctx, func(o *crosschaintypes.OutgoingBridgeCall) bool {
+		if o.EventNonce > 0 {
+			res[o.EventNonce]++
+		}
+		return false
+	})
+	return res
+}
+
+// effectsLine: `nonce:times,...` ("-" when nothing is in force); ERC-20 balances are re-read only after ops that can
+// move them (exec, and claims that advanced the last observed nonce).
+func (w *world) effectsLine() string {
+	if !w.exDirty {
+		return w.exCache
+	}
+	m := w.effects()
+	var ks []uint64
+	for k := range m {
+		ks = append(ks, k)
+	}
+	sort.Slice(ks, func(i, j int) bool { return ks[i] < ks[j] })
+	var xs []string
+	for _, k := range ks {
+		xs = append(xs, fmt.Sprintf("%d:%d", k, m[k]))
+		if m[k] > 1 {
+			w.violate("C01", fmt.Sprintf("a claim parked for later execution ran its effects more than once: effects of event nonce %d are in force %d times", k, m[k]))
+		}
+		if _, ok := w.observedAt[k]; !ok && m[k] > 0 && !w.pendingNow(k) {
+			// (observedAt is filled by monitors() after the op that observed it; an exec in the same op cannot precede it)
+			w.violate("C01", fmt.Sprintf("deferred effects of event nonce %d are in force although it was never observed", k))
+		}
+		if m[k] > 0 && w.pendingNow(k) {
+			w.violate("C01", fmt.Sprintf("deferred effects of event nonce %d are in force while its claim is still parked (it can run again)", k))
+		}
+	}
+	w.exCache = joinOr(xs, ",")
+	w.exDirty = false
+	return w.exCache
+}
+
+func (w *world) pendingNow(n uint64) bool {
+	_, ok := w.k.GetPendingExecuteClaim(w.s.Ctx, n)
+	return ok
 }
 
 // ---------------------------------------------------------------------------------------------------------
@@ -484,6 +667,9 @@ func (w *world) spec(n, h uint64, wantKind string) claimSpec {
 		sp.kind = "s:" + strings.Join(ids, ",")
 	}
 	sp.token = helpers.GenExternalAddr(w.chain)
+	sp.recv = helpers.GenAccAddress()
+	sp.contract = helpers.GenHexAddress()
+	sp.refund = helpers.GenExternalAddr(w.chain)
 	w.specs[k] = sp
 	return sp
 }
@@ -497,7 +683,17 @@ func (w *world) mkClaim(n, h uint64, sp claimSpec, bridger string) crosschaintyp
 			token = w.fxToken
 		}
 		return &crosschaintypes.MsgSendToFxClaim{EventNonce: n, BlockHeight: ext, TokenContract: token, Amount: sdkmath.NewInt(int64(1 + h)),
-			Sender: w.sender, Receiver: w.recv.String(), BridgerAddress: bridger, ChainName: w.chain}
+			Sender: w.sender, Receiver: sp.recv.String(), BridgerAddress: bridger, ChainName: w.chain}
+	case sp.kind == "c":
+		// bridge call to a (possibly re-entrant) contract: the module token when h is even, an unknown token (the deferred
+		// handler fails before the callback) when h is odd; the callback carries value 1
+		token := sp.token
+		if h%2 == 0 {
+			token = w.modToken
+		}
+		return &crosschaintypes.MsgBridgeCallClaim{ChainName: w.chain, BridgerAddress: bridger, EventNonce: n, BlockHeight: ext,
+			Sender: w.sender, Refund: sp.refund, TokenContracts: []string{token}, Amounts: []sdkmath.Int{sdkmath.NewInt(callAmount)},
+			To: crosschaintypes.ExternalAddrToStr(w.chain, sp.contract.Bytes()), Data: "", Value: sdkmath.OneInt(), Memo: "", TxOrigin: w.sender}
 	case sp.kind == "o":
 		return &crosschaintypes.MsgBridgeTokenClaim{EventNonce: n, BlockHeight: ext, TokenContract: sp.token, Name: "T", Symbol: fmt.Sprintf("S%dX%d", n, h),
 			Decimals: 18, BridgerAddress: bridger, ChainName: w.chain}
@@ -571,6 +767,14 @@ func (w *world) opClaim(wrapper, inner int, n, h uint64, kind string) string {
 	}
 	before := w.snapshot()
 	res, _ := w.route(&crosschaintypes.MsgClaim{ChainName: w.chain, BridgerAddress: wa.String(), Claim: anyv})
+	if lo2 := w.k.GetLastObservedEventNonce(w.s.Ctx); lo2 != w.prevLo {
+		for k, s2 := range w.specs {
+			if s2.kind == "c" && k[0] <= lo2 {
+				w.touched[s2.contract] = true
+			}
+		}
+		w.exDirty = true
+	}
 	if res == "ok" && found {
 		if n != expect {
 			w.violate("C01", fmt.Sprintf("claim accepted for event nonce %d although the oracle's next nonce is %d (skipped or repeated a nonce)", n, expect))
@@ -721,10 +925,83 @@ func (w *world) opEndBlock(blocks int64) string {
 	return res
 }
 
-// opExec calls the real crosschain precompile `executeClaim(chain, nonce)` through the EVM.
-func (w *world) opExec(n uint64) string {
+// reentrantCode: runtime code of a bridge-call target.  When it is called while its own native balance is exactly 1 (the
+// callback carries value 1, so: during the first callback that is in force) it calls
+// `crosschain.executeClaim(chain, m)` for every m of `calls`, in order, ignoring the results, and then stops or reverts;
+// at any other balance it just stops (this only bounds the recursion on trees where a parked claim can be re-entered).
+func reentrantCode(pre common.Address, datas [][]byte, revert bool) []byte {
+	// SELFBALANCE PUSH1 1 EQ PUSH1 L JUMPI STOP L: JUMPDEST
+	code := []byte{0x47, 0x60, 0x01, 0x14, 0x60, 0x08, 0x57, 0x00, 0x5b}
+	type fix struct{ at, idx int }
+	var fixes []fix
+	for i, d := range datas {
+		code = append(code, 0x61, byte(len(d)>>8), byte(len(d)), 0x61, 0, 0) // PUSH2 size PUSH2 offset(code)
+		fixes = append(fixes, fix{len(code) - 2, i})
+		code = append(code, 0x60, 0x00, 0x39) // PUSH1 0 CODECOPY
+		// retSize 0, retOffset 0, argsSize, argsOffset 0, value 0, PUSH20 precompile, PUSH3 gas, CALL, POP
+		// (a fixed gas allowance per call: a precompile call that returns an error burns all the gas it was given)
+		code = append(code, 0x60, 0x00, 0x60, 0x00, 0x61, byte(len(d)>>8), byte(len(d)), 0x60, 0x00, 0x60, 0x00, 0x73)
+		code = append(code, pre.Bytes()...)
+		code = append(code, 0x62, byte((callGas>>16)&0xff), byte((callGas>>8)&0xff), byte(callGas&0xff), 0xf1, 0x50)
+	}
+	if revert {
+		code = append(code, 0x60, 0x00, 0x60, 0x00, 0xfd)
+	} else {
+		code = append(code, 0x00)
+	}
+	for _, f := range fixes {
+		off := len(code)
+		code[f.at], code[f.at+1] = byte(off>>8), byte(off)
+		code = append(code, datas[f.idx]...)
+	}
+	return code
+}
+
+func (w *world) execData(n uint64) []byte {
+	d, err := crosschaintypes.GetABI().Pack("executeClaim", w.chain, new(big.Int).SetUint64(n))
+	if err != nil {
+		w.t.Fatal(err)
+	}
+	return d
+}
+
+// install puts the code realising the call tree on the targets of the parked bridge-call claims that occur in it (the
+// first occurrence of a nonce defines what its contract does).
+func (w *world) install(root *callNode) {
+	done := map[uint64]bool{}
+	var walk func(c *callNode)
+	walk = func(c *callNode) {
+		if !done[c.n] {
+			done[c.n] = true
+			if cl, ok := w.k.GetPendingExecuteClaim(w.s.Ctx, c.n); ok {
+				// a leaf with an odd nonce keeps a target without code (no callback at all) unless code was installed before
+				if bc, ok := cl.(*crosschaintypes.MsgBridgeCallClaim); ok && (len(c.kids) > 0 || c.o == 'r' || c.n%2 == 0 || w.touchedCode[bc.GetToAddr()]) {
+					w.touchedCode[bc.GetToAddr()] = true
+					var datas [][]byte
+					for _, k := range c.kids {
+						datas = append(datas, w.execData(k.n))
+					}
+					if err := w.s.App.EvmKeeper.CreateContractWithCode(w.s.Ctx, bc.GetToAddr(), reentrantCode(crosschaintypes.GetAddress(), datas, c.o == 'r')); err != nil {
+						w.t.Fatalf("CreateContractWithCode: %v", err)
+					}
+					w.touched[bc.GetToAddr()] = true
+				}
+			}
+		}
+		for _, k := range c.kids {
+			walk(k)
+		}
+	}
+	walk(root)
+}
+
+// opExec calls the real crosschain precompile `executeClaim(chain, n)` through the EVM; the targets of parked bridge-call
+// claims are contracts that call `executeClaim` again from inside the callback, as `root` prescribes.
+func (w *world) opExec(root *callNode) string {
+	n := root.n
 	_, pending := w.k.GetPendingExecuteClaim(w.s.Ctx, n)
 	before := w.snapshot()
+	w.install(root)
 	from := w.caller
 	var err error
 	r := hx.Try(func() error {
@@ -752,7 +1029,15 @@ func (w *world) opExec(n uint64) string {
 		}
 		w.executed[n] = true
 	}
-	w.out.Emit(fmt.Sprintf("exec %d %d", n, b2i(res == "err:exec-failed")), res+" "+w.observe())
+	// how the handler of the outermost call ended is an input of the model: an error of the real handler is `f`
+	o := root.o
+	if res == "err:exec-failed" {
+		o = 'f'
+	} else if o == 'f' {
+		o = 'o'
+	}
+	w.exDirty = true
+	w.out.Emit(fmt.Sprintf("exec %d %c %s", n, o, root.forest()), res+" "+w.observe())
 	w.monitors(before)
 	return res
 }
@@ -805,8 +1090,12 @@ func (w *world) runLine(line string) {
 			}
 		}
 		w.opEndBlock(blocks)
+	case f[0] == "exec" && len(f) >= 4:
+		if kids, rest, ok := parseForest(f[3]); ok && rest == "" && len(f[2]) == 1 {
+			w.opExec(&callNode{n: atou(f[1]), o: f[2][0], kids: kids})
+		}
 	case f[0] == "exec" && len(f) >= 2:
-		w.opExec(atou(f[1]))
+		w.opExec(&callNode{n: atou(f[1]), o: 'o'})
 	}
 }
 
@@ -952,8 +1241,90 @@ func (w *world) randKind(n, h uint64) string {
 			return "p"
 		}
 		return "s:" + strings.Join(ms, ",")
+	case 3, 4, 5:
+		return "c"
 	}
 	return "p"
+}
+
+// genTree builds the call tree of one exec op from per-claim plans (what the target contract of a parked bridge-call claim
+// does during its callback): re-enter its own nonce, call an ancestor's nonce, another parked nonce, a nonce that is not
+// parked; revert at the end or not.  The same nonce gets the same plan wherever it occurs in the tree.
+func (w *world) genTree(n uint64) *callNode {
+	type plan struct {
+		calls  []uint64
+		revert bool
+	}
+	plans := map[uint64]*plan{}
+	var pend []uint64
+	for _, p := range hx.RawPrefix(w.s.Ctx, w.key, crosschaintypes.PendingExecuteClaimKey) {
+		pend = append(pend, sdk.BigEndianToUint64(p[0][1:]))
+	}
+	lo := w.k.GetLastObservedEventNonce(w.s.Ctx)
+	budget := 2 + w.rng.Intn(8)
+	var gen func(n uint64, anc []uint64, depth int) *callNode
+	gen = func(n uint64, anc []uint64, depth int) *callNode {
+		node := &callNode{n: n, o: 'o'}
+		cl, found := w.k.GetPendingExecuteClaim(w.s.Ctx, n)
+		if !found {
+			return node
+		}
+		switch c := cl.(type) {
+		case *crosschaintypes.MsgSendToFxClaim:
+			if c.TokenContract != w.fxToken {
+				node.o = 'f'
+			}
+			return node
+		case *crosschaintypes.MsgBridgeCallClaim:
+			if c.TokenContracts[0] != w.modToken {
+				node.o = 'f'
+				return node
+			}
+		default:
+			return node
+		}
+		for _, a := range anc {
+			if a == n {
+				return node // re-entered while its own callback is running: the contract is at balance 2 and stops
+			}
+		}
+		pl := plans[n]
+		if pl == nil {
+			pl = &plan{revert: w.rng.Intn(5) == 0}
+			k := 0
+			if depth < 4 {
+				k = []int{0, 1, 1, 2, 2, 3}[w.rng.Intn(6)]
+			}
+			for i := 0; i < k && budget > 0; i++ {
+				budget--
+				var m uint64
+				switch r := w.rng.Intn(10); {
+				case r < 3:
+					m = n // re-enter the nonce being executed
+					w.out.Count("exec:plan:re-enter-own-nonce")
+				case r < 4 && len(anc) > 0:
+					m = anc[w.rng.Intn(len(anc))]
+					w.out.Count("exec:plan:ancestor-nonce")
+				case r < 9 && len(pend) > 0:
+					m = pend[w.rng.Intn(len(pend))]
+					w.out.Count("exec:plan:other-parked-nonce")
+				default:
+					m = 1 + uint64(w.rng.Int63n(int64(lo)+2))
+					w.out.Count("exec:plan:random-nonce")
+				}
+				pl.calls = append(pl.calls, m)
+			}
+			plans[n] = pl
+		}
+		if pl.revert {
+			node.o = 'r'
+		}
+		for _, m := range pl.calls {
+			node.kids = append(node.kids, gen(m, append(append([]uint64{}, anc...), n), depth+1))
+		}
+		return node
+	}
+	return gen(n, nil, 0)
 }
 
 func (w *world) randomClaim() {
@@ -1152,8 +1523,13 @@ func (w *world) randomOp() {
 		if len(pend) > 0 && w.rng.Intn(5) != 0 {
 			n = sdk.BigEndianToUint64(pend[w.rng.Intn(len(pend))][0][1:])
 		}
-		res := w.opExec(n)
+		tree := w.genTree(n)
+		res := w.opExec(tree)
 		w.out.Count("exec:" + res)
+		w.out.Count(fmt.Sprintf("exec:tree-depth=%d", tree.depth()))
+		if tree.size() > 1 {
+			w.out.Count("exec:with-nested-calls:" + res)
+		}
 	}
 }
 
